@@ -21,7 +21,7 @@ RULE = (
     "nodes; interior-node perturbation up to 0.15 h where faces stay planar, affine maps and rigid rotations of "
     "3-d grids; gmsh simplices in the thorough tier; 2-d grids in the xy-plane), constant Lame parameters mu in [0.5,3], lambda in [0.1,3], a "
     "linear displacement field u = c + G x (general, symmetric, skew = rigid rotation, volumetric, G = 0 = "
-    "translation) and a per-face Dirichlet/Neumann assignment from the admissible classes of the property: "
+    "translation; u = d (L c + G x) with L the unit factor of the grid and d = 1 or a data magnitude 1e-6..1e6) and a per-face Dirichlet/Neumann assignment from the admissible classes of the property: "
     "all Dirichlet; 2-d any mix (incl. all Neumann, one Dirichlet face); 3-d mix built greedily so that no two "
     "Neumann faces share an edge (never by rejection; re-verified independently per case). In three quarters of "
     "the cases the matrices asserted on come from a RE-discretisation: first another admissible assignment / other "
@@ -30,7 +30,7 @@ RULE = (
     "same or new Mpsa object, same or new data dictionary. Oracle (analytic): "
     "stress u + bound_stress bc = sigma n_f on every non-Neumann face; for the translation part c alone zero "
     "traction on every face; bound_displacement_cell u + bound_displacement_face bc = u(x_f) on Dirichlet "
-    "faces; all to 1e-9 of the magnitude of the summed terms (|M||v|). Reconstruction on Neumann faces is not "
+    "faces; all to 1e-9 of the magnitude of the summed terms (|M||v|), no absolute tolerance anywhere. Reconstruction on Neumann faces is not "
     "asserted (not claimed). Non-trivial = >= 2 cells, G != 0 and (a Neumann face present, or a grid that is "
     "not an unperturbed Cartesian one); distinct = hash of spec."
 )
@@ -42,7 +42,8 @@ LEVEL_TEXT = ("Exploration: hundreds (quick) to thousands (thorough) of generate
               "traction and face displacement of the linear field, independent of the implementation.")
 LEVEL_NOTE = ("Grids have at most ~100 cells, planar faces and no hanging nodes (collinear faces of one cell make "
               "the local MPSA systems singular - a limitation of the method, not explored). Per-face boundary "
-              "types only (no per-component mixes, no Robin). Tolerance 1e-9 relative to the summed terms. "
+              "types only (no per-component mixes, no Robin). Tolerance 1e-9 relative to the summed terms (purely relative: lengths 1e-6..1e4, moduli 1e-6..1e12, "
+              "data 1e-6..1e6 are covered). "
               "Finds violations, does not prove absence.")
 DESIGN_REF = "DESIGN.md section 4, C13"
 ASSUMPTIONS = [
@@ -54,6 +55,7 @@ ASSUMPTIONS = [
 REQUIRED = {"dim2": 0.2, "dim3": 0.2, "neumann-present": 0.3, "bc-all_dir": 0.05, "bc-mix": 0.25,
             "field-rotation": 0.03, "field-translation": 0.03, "field-general": 0.12,
             "kind-tri": 0.02, "kind-tet": 0.01, "kind-poly": 0.02, "kind-polyx": 0.01, "perturbed": 0.05,
+            "scaled-small": 0.03, "scaled-large": 0.02, "stiff": 0.04, "soft": 0.02, "graded": 0.01, "data-scaled": 0.08,
             "reuse-none": 0.1, "reuse-bc-edited": 0.15, "reuse-geometry-edited": 0.05, "reuse-stiffness-edited": 0.05,
             "reuse-back": 0.08, "reuse-forward": 0.08, "reuse-same-discr": 0.08, "reuse-new-discr": 0.08,
             "reuse-same-data": 0.08, "reuse-new-data": 0.08}
@@ -85,8 +87,15 @@ def _spec(draw, tier):
     modes = ("mix", "mix", "mix", "all_dir", "one_dir")
     if g["dim"] == 2:
         modes = modes + ("all_neu",)
+    # displacement data in the units of the grid: u = d (L c + G x), L the unit factor of the grid, d a data magnitude
+    fs = draw(fm.displacement_spec())
+    d = fm.data_scale(draw)
+    L = float(g.get("scale", 1.0))
+    fs["c"] = [v * L * d for v in fs["c"]]
+    fs["G"] = [[v * d for v in row] for row in fs["G"]]
+    fs["dscale"] = d
     return {"grid": g, "lame": draw(fm.lame_spec()), "bc": draw(fm.vbc_spec(modes=modes)),
-            "field": draw(fm.displacement_spec()), "reuse": draw(fm.reuse_spec(("mix", "mix", "all_dir", "one_dir")))}
+            "field": fs, "reuse": draw(fm.reuse_spec(("mix", "mix", "all_dir", "one_dir")))}
 
 
 def strategy(tier):
@@ -124,7 +133,7 @@ def check(spec):
     got = stress @ u + bstress @ bv
     sc = float((fm.abs_apply(stress, u) + fm.abs_apply(bstress, bv)).max())
     not_neu = ~fm.expand_nd(is_neu, nd)
-    require_close(got[not_neu], T[not_neu], "traction-non-neumann-faces", rtol=1e-9, atol=1e-13, scale=sc,
+    require_close(got[not_neu], T[not_neu], "traction-non-neumann-faces", rtol=1e-9, atol=0.0, scale=sc,
                   what="stress u + bound_stress bc vs sigma n_f")
 
     # rigid translation: the constant part alone, Dirichlet data c, zero traction on Neumann faces
@@ -133,7 +142,7 @@ def check(spec):
     bv0 = fm.flat(fm.linear_bc_values(g, trans, lame, is_dir, is_neu))
     got0 = stress @ u0 + bstress @ bv0
     sc0 = float((fm.abs_apply(stress, u0) + fm.abs_apply(bstress, bv0)).max())
-    require_close(got0, np.zeros_like(got0), "translation-zero-traction", rtol=1e-9, atol=1e-13, scale=sc0,
+    require_close(got0, np.zeros_like(got0), "translation-zero-traction", rtol=1e-9, atol=0.0, scale=sc0,
                   what="traction of a rigid translation")
 
     # displacement reconstruction on Dirichlet faces
@@ -142,11 +151,12 @@ def check(spec):
     uf = fm.flat(fm.displacement_at(fs, g.face_centers, nd))
     dd = fm.expand_nd(is_dir, nd)
     scr = float((fm.abs_apply(bdc, u) + fm.abs_apply(bdf, bv)).max())
-    require_close(rec[dd], uf[dd], "dirichlet-face-displacement", rtol=1e-9, atol=1e-13, scale=scr,
+    require_close(rec[dd], uf[dd], "dirichlet-face-displacement", rtol=1e-9, atol=0.0, scale=scr,
                   what="bound_displacement_cell u + bound_displacement_face bc vs u(x_f)")
 
     meta = grid_meta(spec["grid"])
     labels = list(meta["labels"]) + ["bc-" + spec["bc"]["mode"], "field-" + fs["kind"]] + fm.reuse_labels(reuse)
+    labels += fm.scale_labels(spec["grid"], lame, fs.get("dscale", 1.0))
     n_neu, n_dir = int(is_neu.sum()), int(is_dir.sum())
     if n_neu:
         labels.append("neumann-present")
